@@ -36,6 +36,7 @@ type Violation struct {
 	Kind       string           `json:"kind"` // assert | panic | deadlock | hang
 	Vars       map[string]int64 `json:"vars"`
 	Choices    []int64          `json:"choices"`
+	Oracle     []int64          `json:"oracle"`
 	Trace      []int64          `json:"trace"`
 	Reproduced bool             `json:"reproduced_in_engine"`
 	Native     string           `json:"native_replay,omitempty"`
@@ -45,6 +46,8 @@ type Violation struct {
 type Replay struct {
 	Vars    map[string]int64
 	Choices []int64
+	Oracle  []int64
+	opos    int
 	pos     int
 	failed  []string // labels of assertions that failed concretely
 }
@@ -59,6 +62,7 @@ type pathMgr struct {
 	prefix  []int64
 	trace   []int64
 	choices []int64
+	oracle  []int64
 	pc      []string
 	names   map[string]int
 	vars    []string
@@ -75,6 +79,7 @@ func (pm *pathMgr) beginRun(prefix []int64) {
 	pm.prefix = prefix
 	pm.trace = pm.trace[:0]
 	pm.choices = pm.choices[:0]
+	pm.oracle = pm.oracle[:0]
 	pm.pc = pm.pc[:0]
 	pm.names = map[string]int{}
 	pm.vars = pm.vars[:0]
@@ -359,7 +364,7 @@ func (pm *pathMgr) recordViolation(kind, label string, vars map[string]int64) {
 		facts[k] = v
 	}
 	w.violations = append(w.violations, &Violation{Harness: w.harness, Label: label, Kind: kind, Vars: vars,
-		Choices: append([]int64{}, pm.choices...), Trace: append([]int64{}, pm.trace...), Facts: facts})
+		Choices: append([]int64{}, pm.choices...), Oracle: append([]int64{}, pm.oracle...), Trace: append([]int64{}, pm.trace...), Facts: facts})
 }
 
 // assert is an explicit obligation of the harness.
@@ -435,4 +440,24 @@ func (pm *pathMgr) oblige(c value, label, kind string) {
 	default:
 		panic(engineError{fmt.Sprintf("assert: %T", c)})
 	}
+}
+
+// note records a representation decision that depends on whether values are
+// symbolic (e.g. "this buffer is kept abstract"); recall replays it in a
+// concrete re-execution so that environment models behave identically.
+func (pm *pathMgr) note(v bool) bool {
+	if pm.concrete != nil {
+		r := pm.concrete
+		if r.opos < len(r.Oracle) {
+			v = r.Oracle[r.opos] != 0
+		}
+		r.opos++
+		return v
+	}
+	if v {
+		pm.oracle = append(pm.oracle, 1)
+	} else {
+		pm.oracle = append(pm.oracle, 0)
+	}
+	return v
 }
